@@ -50,7 +50,7 @@ from runner import Infra, TieBroken
 ID = "C13"
 LEAN_MODULES = ["PyYetiVerif.Props.C13", "PyYetiVerif.Props.C13Text", "PyYetiVerif.Props.C13Dmig", "PyYetiVerif.Props.C13Grid",
                 "PyYetiVerif.Props.C13Cord", "PyYetiVerif.Props.C13DmigX", "PyYetiVerif.Props.C13Fmt", "PyYetiVerif.Props.C13Multi", "PyYetiVerif.Props.C13Values", "PyYetiVerif.Props.C13Uset", "PyYetiVerif.Props.C13Set",
-                "PyYetiVerif.Props.C13ValuesTab", "PyYetiVerif.Props.C13SetIff", "PyYetiVerif.Audit.C13"]
+                "PyYetiVerif.Props.C13ValuesTab", "PyYetiVerif.Props.C13SetIff", "PyYetiVerif.Props.C13FileOK", "PyYetiVerif.Audit.C13"]
 AUDIT_FILE = "PyYetiVerif/Audit/C13.lean"
 THEOREMS = [
     "PyYetiVerif.C13." + n
@@ -73,6 +73,7 @@ THEOREMS = [
         "cord2_roundtrip_values dmig_roundtrip_values dmig_lines_int_instance "
         "uset_bulk_roundtrip_labels uset_bulk_roundtrip_labels_full set_header_split_fails set_roundtrip_iff_partial "
         "set_header_split1_fails set_item_cut_reads set_item_cut_fails set_roundtrip_iff "
+        "file_ok_of_blocks written_file_ok typed_readers_independent_written readers_independent_written "
         "dmig_field_fits dmig_terms_in_range "
         "tabled1_all_doubles tabled1_default_eq_before_fix tabled1_default_differs_iff"
     ).split()
@@ -155,8 +156,8 @@ PARTIAL = (
     "wtgrids / wttabled1 other than the defaults stay opaque tokens (reader returns nas_sscanf(token)); rdcord2cards is "
     "modelled up to the twelve numbers per card handed to n2p.build_coords and bulk2uset up to the labels (id, dof, "
     "nasset, cd id and type) and the written coordinates — the geometry of build_coords / addgrid is C14 (tied through the "
-    "real build_coords and the round-trip oracle); FileOK (hypothesis of readers_independent) is proved for a concrete "
-    "file and checked by the model on every generated file, not derived for all written files; the op2 path of rddmig "
+    "real build_coords and the round-trip oracle); written_file_ok ranges over the blocks of the modelled writers (wtdmig integer- and real-valued, wtgrids, wtcoordcards, wtcsuper, wtextrn, wtspoints, wttabled1 with the name TABLED1, wtset, $ comment lines) on the admissible inputs of their round-trip theorems; files with other junk lines (blank lines, foreign cards) keep the FileOK hypothesis, checked by the model on every generated file; "
+    "the op2 path of rddmig "
     "and its dmig_names filter are oracle-only / not modelled"
 )
 MANIFEST = {
@@ -185,6 +186,10 @@ MANIFEST = {
     "({:16.8e}), dmig_roundtrip_values ({:16.9E} / D) state the values read; files with the cards of several readers: each "
     "reader returns exactly its own cards' content regardless of the other cards, comments and SET statements present "
     "(readers_independent, typed for rddmig / rdgrids / rdcord2cards / rdspoints / rdcsupers / rdextrn / rdtabled1); "
+    "the hypothesis FileOK of these is derived, not assumed, for every file assembled in any order from the texts of wtdmig "
+    "(integer- and real-valued), wtgrids, wtcoordcards, wtcsuper, wtextrn, wtspoints, wttabled1, wtset and $ comment lines on "
+    "admissible inputs (written_file_ok, hence readers_independent_written / typed_readers_independent_written; assembly of "
+    "any well-formed segments: file_ok_of_blocks); "
     "uset2bulk -> bulk2uset at the table level: per grid sorted by id (id, cd, type of cd), six DOF, b-set; scalar points "
     "are not written (label-for-label identity exactly for sorted all-grid b-set tables, cd != cp included); "
     "writer.vecwrite's length rule and broadcast semantics, wtgrids for every packaging, rdgrids(wtgrids), "
@@ -199,8 +204,8 @@ MANIFEST = {
     "integer formatting; C12's float-format model (tied again here by an exact-text stream). Not proved (tied by "
     "correspondence / oracle only): user-supplied `form` strings other than "
     "the defaults (opaque tokens); n2p.build_coords / addgrid / mkcordcardinfo geometry behind rdcord2cards / bulk2uset / "
-    "uset2bulk (C14); FileOK for arbitrary written files (checked per generated file by the model's own decision "
-    "procedure); op2 DMIG. Findings: a NEGATIVE value with a three-digit decimal exponent needs 17 characters in '{:16.9E}' — "
+    "uset2bulk (C14); FileOK for files that hold lines other than written blocks and $ comments (blank lines, foreign cards: checked per generated file by the model's own "
+    "decision procedure); op2 DMIG. Findings: a NEGATIVE value with a three-digit decimal exponent needs 17 characters in '{:16.9E}' — "
     "F64 wtdmig (repaired by 4411a34: _dmig_field falls back to '{:16.8E}'; modelled, translated, dmig_field_fits; regression "
     "guard in the oracle), F65 wttabled1 default pair format (repaired by 328435d: the default case is formatted value by "
     "value through the same _dmig_field; modelled (tabled1LinesDefault), translated (the default-form test, the helper call and "
